@@ -1130,3 +1130,48 @@ pub async fn verif_negotiate_connection(
 /// The connection task for the connection harness (verification only).
 #[cfg(litep2p_verif)]
 pub(crate) use connection::TcpConnection as VerifTcpConnection;
+
+/// As [`verif_negotiate_connection`], with the form of the dialed address chosen by the caller:
+/// `"dns"`, `"dns4"`, `"dns6"` make `negotiate_connection` run with `AddressType::Dns { host, .. }`,
+/// anything else with `AddressType::Socket(address)` (verification harness only).
+#[cfg(litep2p_verif)]
+#[allow(clippy::too_many_arguments)]
+pub async fn verif_negotiate_connection_at(
+    stream: TcpStream,
+    dialed_peer: Option<crate::PeerId>,
+    keypair: crate::crypto::ed25519::Keypair,
+    role: crate::config::Role,
+    address_form: &str,
+    host: &str,
+    address: SocketAddr,
+    timeout: Duration,
+) -> Result<crate::PeerId, crate::error::NegotiationError> {
+    use crate::transport::common::listener::{AddressType, DnsType};
+
+    let dns = |dns_type| AddressType::Dns {
+        address: host.to_string(),
+        port: address.port(),
+        dns_type,
+    };
+    let address = match address_form {
+        "dns" => dns(DnsType::Dns),
+        "dns4" => dns(DnsType::Dns4),
+        "dns6" => dns(DnsType::Dns6),
+        _ => AddressType::Socket(address),
+    };
+
+    TcpConnection::negotiate_connection(
+        stream,
+        dialed_peer,
+        ConnectionId::from(0usize),
+        keypair,
+        role,
+        address,
+        Default::default(),
+        crate::crypto::noise::MAX_READ_AHEAD_FACTOR,
+        crate::crypto::noise::MAX_WRITE_BUFFER_SIZE,
+        timeout,
+    )
+    .await
+    .map(|connection| connection.peer())
+}
